@@ -148,7 +148,7 @@ func (t *Torrent) String() string {
 }
 
 func (t *Torrent) getPiece(pi int) (*piece, error) {
-	if pi >= len(t.pieces) {
+	if pi < 0 || pi >= len(t.pieces) {
 		return nil, fmt.Errorf("invalid piece index %d: num pieces = %d", pi, len(t.pieces))
 	}
 	return t.pieces[pi], nil
